@@ -92,6 +92,34 @@ theorem pending_discarded_on_reconnect (c : Cfg V) (tick now : Nat) (b : Bucket 
     (b.updateStatus c now tick n0.key true dir).1.pending = none := by
   exact updateStatus_head_pending hn hinv
 
+/-- Writing a bucket back unchanged changes nothing. -/
+theorem setBucket_bucket_self (t : Table V) (i : Nat) : t.setBucket i (t.bucket i) = t := by
+  cases t with
+  | mk lk bs ap tk =>
+    simp only [Table.setBucket, Table.bucket, Table.mk.injEq, true_and, and_true]
+    by_cases h : i < bs.length
+    · rw [List.getD_eq_getElem?_getD, List.getElem?_eq_getElem h]
+      simp
+    · rw [List.set_eq_of_length_le (by omega)]
+
+/-- Pending semantics, part 4: removing a key that is not stored is a read.  `KBucketsTable::remove`
+of an id that is not among the bucket's nodes (never inserted, removed before, or the parked
+candidate's own id) does to the table exactly what looking the key up does (`entry`: the bucket's
+pending node is applied if - and only if - it is due) and reports `false`; in particular it does not
+touch the pending node's deadline. -/
+theorem remove_of_absent_key_is_a_read (c : Cfg V) (now : Nat) (t : Table V) (key : Nat)
+    (h : ∀ i, bucketIndex t.bump.localKey key = some i →
+      ((Table.applyAt c now t.bump i).bucket i).position key = none) :
+    t.remove c now key = (t.entryTouch c now key, false) := by
+  unfold Table.remove Table.entryTouch
+  simp only
+  cases hi : bucketIndex t.bump.localKey key with
+  | none => rfl
+  | some i =>
+    simp only
+    have hp := h i hi
+    simp only [Bucket.remove, hp, setBucket_bucket_self]
+
 /-! ### Non-vacuity: concrete reachable data satisfying the hypotheses -/
 
 /-- limits 8 / 60, both filters accept everything -/
@@ -139,5 +167,15 @@ example : ∃ n0 rest, (c07Table.bucket 5).nodes = n0 :: rest ∧
   | nil => rw [hn] at hl; cases hl
   | cons n0 rest =>
     exact ⟨n0, rest, rfl, (reachable_inv c07Cfg 0 c07Ops).buckets 5 (by decide), by decide +kernel⟩
+
+
+/-- `remove_of_absent_key_is_a_read` on the table above: id 49 belongs to the full bucket 5 and is not stored;
+removing it at time 2 reports `false`, keeps all sixteen nodes and leaves the parked node 48 parked. -/
+example : (c07Table.remove c07Cfg 2 49).2 = false ∧
+    ((c07Table.remove c07Cfg 2 49).1.bucket 5).nodes.length = 16 ∧
+    (((c07Table.remove c07Cfg 2 49).1.bucket 5).pending.map (·.node.key)) = some 48 ∧
+    (((c07Table.remove c07Cfg 2 49).1.bucket 5).pending.map (·.replace)) =
+      ((c07Table.bucket 5).pending.map (·.replace)) := by
+  decide +kernel
 
 end Discv5.KB
